@@ -157,6 +157,7 @@ func runC04(c *Ctx) {
 	c.rule("N9", "a function that holds the removal primitive does not take Exists()==false for 'absent': on that side the path is examined with Lstat/Stat, the error is classified (not-exist or not) and reported when it is not 'absent'", 1)
 	c.rule("N10", "Exists(): where opening a directory fails, 'does not exist' is answered only if the failure says so (the error is classified), never for every failure", 1)
 	c.rule("N11", "an empty path designates no tree: where a removal function tests its path parameter for emptiness, no caller hands it the result of filepath.Clean (which turns \"\" into \".\", the current directory)", 1)
+	c.rule("N12", "the privileged removal of package platform cleans the path it is given before it examines it and hands it to a command: `link/` designates what the link points to, for rm as for Lstat", 1)
 	c.rule("N8", "in the removal call graph, an error assigned to a variable is read before the variable is overwritten or the function returns: a failed step (cleaning, listing, removing) cannot be covered by the result of the next one", 40)
 
 	c.patternLoopsComplete("N4")
@@ -287,6 +288,40 @@ func runC04(c *Ctx) {
 		})
 		c.check(n > 0 && bad == "", "N7", fname(g)+"/path-is-an-operand", c.pos(g.Pos()), "the path is an operand of every command run",
 			"the command run at "+bad+" does not receive the path it is meant to remove: it succeeds without removing anything, and the forced removal — the last resort of RemoveWithPrivileges — reports success with the tree still in place")
+	}
+
+	// ---- N12 ----------------------------------------------------------------
+	if rp := c.fnOpt("platform", "RemoveWithPrivileges"); rp != nil {
+		c.FuncsSeen[fname(rp)] = true
+		pi := paramIndexByName(rp, "path")
+		bad, n := "", 0
+		allInstrs(rp, func(in ssa.Instruction) {
+			cl, ok := in.(*ssa.Call)
+			if !ok {
+				return
+			}
+			h := staticCallee(&cl.Call)
+			if h == nil || !(h.Name() == "removeFileAs" || h.Name() == "removeDirAs") || pi < 0 {
+				return
+			}
+			n++
+			cleaned := false
+			for _, a := range cl.Call.Args {
+				if a.Type().String() != "string" {
+					continue
+				}
+				for _, l := range sources(a, deriveOpts{}) {
+					if cc, ok := l.(*ssa.Call); ok && calleeFull(&cc.Call) == "path/filepath.Clean" && resolveValue(cc.Call.Args[0]) == ssa.Value(rp.Params[pi]) {
+						cleaned = true
+					}
+				}
+			}
+			if !cleaned {
+				bad = c.ipos(cl)
+			}
+		})
+		c.check(n > 0 && bad == "", "N12", fname(rp)+"/path-cleaned", c.pos(rp.Pos()), "the helpers receive the cleaned path",
+			"the command run at "+bad+" receives the path as the caller spelt it: for a symbolic link to a directory given with a trailing separator, `rm -r -f -- link/` deletes what the link points to — outside the tree — and leaves the link, and the call reports success")
 	}
 
 	// ---- N2 -----------------------------------------------------------------
